@@ -159,7 +159,7 @@ func openWorld(dir, prefix string) *world {
 		vevid.Fatal("open engine: %v", err)
 	}
 	vbox.DupWait = 0 // one-response-per-request is not a clause of this property
-	vbox.QueryTimeout = 10 * time.Second
+	vbox.QueryTimeout = 5 * time.Second
 	day := time.Now().UTC().Truncate(24*time.Hour).UnixMilli() - 24*3600*1000
 	return &world{box: b, base: day + 10*3600*1000, prefix: prefix}
 }
